@@ -67,6 +67,8 @@ class C11(Spec):
     extra_flags = ("-include", "vsched.h")
     translators = (gen_locktable.run,)
     quick_cases = 1500
+    free_quick = 300
+    free_thorough = 10000
     thorough_cases = 40000
     search_cases = 4000
     case_chunk = 1500
